@@ -247,6 +247,32 @@ def coerce(ty: Ty, v):
     return v
 
 
+class _Hang(BaseException):
+    pass
+
+
+def _with_alarm(fn, c, values, seconds=6):
+    """Run one native evaluation under a watchdog: a call that does not return within the limit
+    is itself a failure of the termination clause (hang on a concrete input)."""
+    import signal
+
+    def on_alarm(signum, frame):
+        raise _Hang()
+
+    try:
+        old = signal.signal(signal.SIGALRM, on_alarm)
+    except ValueError:  # not in the main thread
+        return fn(c, values)
+    signal.alarm(seconds)
+    try:
+        return fn(c, values)
+    except _Hang:
+        return NativeResult("fail", f"the call did not return within {seconds} s (non-termination)", "termination")
+    finally:
+        signal.alarm(0)
+        signal.signal(signal.SIGALRM, old)
+
+
 def search(c: Contract, seed: int, n: int, first=None):
     """Directed native search: evaluate the contract on generated inputs (and first on the
     given candidate inputs).  Returns (failure or None, stats)."""
@@ -266,7 +292,7 @@ def search(c: Contract, seed: int, n: int, first=None):
             shown = describe(values)
         except Exception:
             shown = None
-        r = native_check(c, values)
+        r = _with_alarm(native_check, c, values)
         stats["evaluated"] += 1
         if r.verdict == "fail":
             return {"inputs": shown, "detail": r.detail, "clause": r.clause}, stats
